@@ -24,11 +24,21 @@ CHECKS = {
    text="Proof over Reach (every op sequence, every fault/stop cut, every commit order, ticks, sweeps in any order): uniform_versions, versions_consecutive(_monotone), subject_unique, all_or_nothing (any reachable world whose change records are old: sweep succeeds, log empty, confirmed versions kept, each DID lost at most its pending head, uniform per subject), stopped_operation_resolved, failed_commit_restores, retry_enabled, abandoned_keys_unpublished (+ _partial delivering its premise for commit-failure and stop-before-first-commit; the stop between did:web's and did:nuts's commit is a stated gap with the full statement kept as a def). Pre-fix negation witnesses kept (old_*). Tie: fact_* obligations (60 s threshold, tx -> range MethodManagers:Commit -> tx shape, Rollback loads the whole transaction, IsCommitted not-found => (false,nil), version numbering) + event-by-event differential with every cut of every operation in three timing shapes + implementation-only oracles. Three genuine defects established and repaired (7882721, fc00979, 4209f73).",
    note="Trusted: Lean kernel; extractor; harness (fake network client only; everything else real). Assumptions stated in evidence: no operation in flight longer than the sweep threshold; no new operation on a subject while its change records remain (Clean premise); SQL atomicity/cascades, gorm, uuid/key freshness are contracts.",
    ref="5 C13"),
+ "C04": dict(
+   technique="Lean 4 theorems over a hand-written model of request-line parsing (net/http ReadRequest/ParseRequestURI), the echo router, the auth guard (selector = regenerated fact), the bind table and the token decision function; raw-TCP request-line differential against the real http.Engine; token-variant differential",
+   text="Proof, for all byte-string request targets, methods, route tables, authority verdicts and listener configurations: no_bypass (a handler registered under /internal runs only if the guard was not skipped and the token decision is granted), denied_is_401_no_effect, denied_guarded_runs_nothing, granted_sound (iat<=nbf<=now<exp<=iat+1470min, UUID jti, aud, iss = key comment, sub set, every signature allow-listed without jwk/jku/x5c/x5u), internal_never_public, same_address_shared, configured_binds; pre-fix negation witnesses kept. Tie: 9 fact_* obligations (guard selector is URL.Path, bind table, allow-lists, lifetime constants) + ~20k raw TCP request lines per quick run against 4 real engines (two listeners/shared/no-auth/random route table) and ~970 token variants per round, compared line by line with the model, + oracle 'handler under /internal ran without valid token'. Two genuine defects established and repaired (9d21481 RequestURI selector bypass, fbeca0d exp=0 never expires).",
+   note="Trusted: Lean kernel; extractor; harness. Contracts: net/http request parsing and the echo router are written-down models exercised on the generated grammar only; HTTP/2 not exercised; jwx verification verdicts are harness data. Routes registered with a different letter case (/Internal/x) are bound internal but not guarded — outside the property's text, noted.",
+   ref="5 C04"),
+ "C17": dict(
+   technique="Lean 4 theorems: one uniform 'Disciplined' acceptance statement instantiated for eight token consumers modelled in code order, allow-lists as regenerated facts decided asymmetric; one hostile-variant generator applied to every consumer, accept/reject differential",
+   text="Proof on the policy layer: accept_parseJWT / parseJWS / dpop / dagTx / apiToken / jar / vcJwt / ldProof => exactly one signature, algorithm on the consumer's regenerated allow-list and asymmetric, verified with the header algorithm over its own signing input, key from the consumer's source, embedded private keys refused (dpop under a stated jwx contract); allowed_lists_asymmetric (decide over regenerated lists), header_keys_ignored, apiToken_key_header_rejected; pre-fix negation witnesses. Tie: 7 fact_* obligations on the error-exit condition lists of every modelled function + ~15k variant lines per quick run (alg none/HS*/other family, 0/1/2 signatures via JSON serialisation, split confusion, jwk pub/priv/oct, jku, x5c, x5u, kid games, truncation, re-encoding) over ParseJWT, ParseJWS, dpop.Parse, ParseTransaction+verifier, tokenV2 middleware, jar.validate, VC/VP jwtSignature. Three genuine defects established and repaired (9640310 two-signature bearer token, 0f5d4b5 ParseJWS split confusion, bc0aac3 DAG embedded private jwk by the C06 builder).",
+   note="Trusted: Lean kernel; extractor; harness. 'Verified over the exact bytes received' lives in the jwx contract (verdicts are harness data); jwx accepts non-canonical base64 and verifies the canonical re-encoding (counted in evidence, same decoded content). LDProof.Verify is modelled but has no harness; ES256K build tag not covered.",
+   ref="5 C17"),
 }
 def main():
     checks = []
     for pid in ALL:
-        if pid not in CHECKS:
+        if pid not in CHECKS or pid in PENDING:
             continue
         c = CHECKS[pid]
         checks.append({
@@ -42,7 +52,7 @@ def main():
             "level_note": c["note"],
             "technique": c["technique"],
         })
-    na = [{"property_id": p, "reason": NA.get(p, "check not built yet in this round (model and harness in progress); no claim is made")} for p in ALL if p not in CHECKS]
+    na = [{"property_id": p, "reason": NA.get(p, "check not built yet in this round (model and harness in progress); no claim is made")} for p in ALL if p not in CHECKS or p in PENDING]
     m = {
         "version": 1,
         "setup_cmd": "cd /verif && ./setup.sh",
@@ -65,5 +75,6 @@ def main():
     json.dump(m, open(os.path.join(ROOT, "MANIFEST.json"), "w"), indent=1)
     print("MANIFEST.json:", len(checks), "checks,", len(na), "not claimed")
 NA = {}
+PENDING = {"C17"}  # built but currently not green on the unchanged tree (being repaired): not claimed until it is
 if __name__ == "__main__":
     main()
